@@ -111,7 +111,7 @@ def R1_token_accounts(run):
                     run.bad("R1", inst, "program account `%s` of %s has no classified role" % (f.name, st.name), loc=st.loc(f.name))
                     continue
                 m, ty, need = hit
-                ok = f.ty == ty and all(any(alt in cons for alt in m.expand(x).split("|")) for x in need)
+                ok = f.ty == ty and all(any(ACC.canon_cons(alt) in cons for alt in m.expand(x).split("|")) for x in need)
                 run.check("R1", inst, ok, "%s.%s must be %s with %s (is %s with %s)" % (st.name, f.name, ty, [m.expand(x) for x in need], f.ty, sorted(cons)), loc=st.loc(f.name),
                           detail="%s %s" % (ty, " ".join(m.expand(x) for x in need)))
                 continue
@@ -150,7 +150,7 @@ def R1_token_accounts(run):
                     if badge and any("token_mint.key()" in (v or "") for v in badge[0].values("seeds")):
                         ok, chosen = True, "badge PDA seeds contain this mint"
                 else:
-                    want = m.expand(tpl).replace("{f}", f.name)
+                    want = ACC.canon_cons(m.expand(tpl).replace("{f}", f.name))
                     if want in cons:
                         ok, chosen = True, want
             run.check("R1", inst, ok, "%s.%s (%s) is not tied to the pool: has %s, expected one of %s" % (
